@@ -320,13 +320,28 @@ def sspor_part(ctx):
     from pysensors.optimizers import GQR, QR
     from pysensors.reconstruction import SSPOR
     rng = ctx.rng
-    for idx in range(ctx.scale(80, 1500)):
+    n_base = ctx.scale(80, 1500)
+    for idx in range(n_base + ctx.scale(40, 400)):
+        forced = idx >= n_base
         nf = rng.randint(3, ctx.scale(9, 14))
         ne = rng.randint(2, ctx.scale(6, 10))
+        if forced:
+            # many sensors, a handful of raw snapshots one of which is very quiet (numpy's rank tolerance grows with the number of sensors:
+            # 2^-46 of the largest singular value here, while residuals of 2^-49 are still far above rounding)
+            nf, ne = rng.randint(40, 64), rng.randint(2, 4)
         X = gen.gen_generic_matrix(rng, ne, nf)
-        bk = rng.choice(["identity", "svd", "rp"])
+        bk = "identity" if forced else rng.choice(["identity", "svd", "rp"])
         nm = rng.randint(2, models.admissible_modes(bk, ne, nf)) if models.admissible_modes(bk, ne, nf) >= 2 else 1
+        if forced:
+            nm = ne
         seed = rng.randint(0, 50)
+        faint = forced or (bk == "identity" and rng.random() < 0.5)
+        if faint:
+            # raw snapshots of very different amplitude (one or two very quiet ones among the modes): the basis matrix has full rank but
+            # is rank deficient by numpy's default tolerance – the counts are a matter of which sensors may be picked, not of their norms
+            for i in rng.sample(range(min(nm, ne)), rng.randint(1, min(2, min(nm, ne) - 1)) if min(nm, ne) > 1 else 1):
+                X[i] = X[i] * 2.0 ** -rng.choice([47, 48, 49])
+            ctx.count("sspor-gqr:very_quiet_snapshots_among_the_modes")
         try:
             base = SSPOR(basis=models.make_basis(bk, nm), optimizer=QR()).fit(X.copy(), quiet=True, seed=seed)
         except ValueError:
@@ -335,7 +350,7 @@ def sspor_part(ctx):
         k = min(Bm.shape)
         A = np.array(base.get_all_sensors()).copy()
         L = sorted(rng.sample(range(nf), rng.randint(0, nf)))
-        N = rng.randint(1, k)
+        N = k if (faint and rng.random() < 0.7) else rng.randint(1, k)
         lo, hi = max(0, N - (nf - len(L))), min(N, len(L))
         if lo > hi:
             continue
@@ -361,6 +376,17 @@ def sspor_part(ctx):
         if not J.domain or not feasible_exact(J, N):
             ctx.count("skipped_zero_residual_candidate")
             continue
+        if faint:
+            # "no candidate has exactly zero residual" for the floating-point run: when even the best permitted candidate's residual is
+            # below 2^-50 of the largest row norm, every permitted candidate may be exactly 0.0 there (unit roundoff 2^-53 times a
+            # small constant) – such cases are left out
+            from fractions import Fraction
+            top2 = max(sum(C.frac(v) ** 2 for v in row) for row in case.B.tolist())
+            if any((not v.get("cand_n2")) or v["best"] >= len(v["cand_n2"]) or v["cand_n2"][v["best"]] < top2 * Fraction(1, 2 ** 100)
+                   for v in (J.verdicts or [])[:N]):
+                ctx.count("skipped_residual_below_rounding_level")
+                continue
+            ctx.count("sspor-gqr:numerically_rank_deficient_basis_judged")
         ok, cnt = counts_ok(opt, sel, L, N, s) if len(sel) == N else (False, -1)
         if not ok:
             sig = f"sspor-region-count:{opt}"
